@@ -13,6 +13,7 @@ from __future__ import annotations
 
 import copy
 import json
+import re
 from collections import defaultdict, deque
 
 
@@ -21,9 +22,10 @@ def canon(x):
 
 
 class Mismatch(Exception):
-    def __init__(self, what, **detail):
+    def __init__(self, what, code=None, **detail):
         super().__init__(what)
         self.what = what
+        self.code = code or re.sub(r"[-+]?\d+(\.\d+)?", "#", what)[:70]
         self.detail = detail
 
 
@@ -81,7 +83,7 @@ def cover(graph: Graph, root_key, factory, step, project, clone=copy.deepcopy, m
                 if canon(got) != k2:
                     raise Mismatch("state after step differs from model", got=got, want=graph.state[k2])
             except Mismatch as m:
-                violations.append({"what": m.what, "detail": m.detail, "path": p})
+                violations.append({"what": m.what, "code": m.code, "detail": m.detail, "path": p})
                 if on_violation:
                     on_violation(violations[-1])
                 continue
@@ -90,7 +92,7 @@ def cover(graph: Graph, root_key, factory, step, project, clone=copy.deepcopy, m
 
                 tb = traceback.extract_tb(ex.__traceback__)
                 where = f"{tb[-1].filename.split('/')[-1]}:{tb[-1].name}" if tb else "?"
-                violations.append({"what": f"exception {type(ex).__name__} in {where}: {str(ex)[:120]}", "detail": {}, "path": p})
+                violations.append({"what": f"exception {type(ex).__name__} in {where}: {str(ex)[:120]}", "code": f"exception:{type(ex).__name__}:{where}", "detail": {}, "path": p})
                 continue
             if k2 not in visited:
                 visited.add(k2)
